@@ -15,12 +15,20 @@ type Date struct {
 	Zero   bool  `json:"zero,omitempty"`   // the Go zero time
 	Nanos  int64 `json:"nanos,omitempty"`  // Unix nanoseconds otherwise
 	Offset int   `json:"offset,omitempty"` // zone offset in seconds (0 = UTC): sender-side only
+	// Far dates lie outside what int64 Unix nanoseconds can hold (before 1678 or after
+	// 2262): Sec seconds since the epoch plus Nanos (0..999999999). Their wire value is not
+	// defined by the format, so only encoder-against-encoder checks use them.
+	Far bool  `json:"far,omitempty"`
+	Sec int64 `json:"sec,omitempty"`
 }
 
 // Ticks is the wire value: 100ns ticks, zero time = 0.
 func (d Date) Ticks() int64 {
 	if d.Zero {
 		return 0
+	}
+	if d.Far {
+		return d.Sec*10000000 + d.Nanos/100
 	}
 	return d.Nanos / 100
 }
